@@ -1070,6 +1070,16 @@ def eval_case(args):
                     abs=render(a0x),
                     impl=[1] + o(sc[0]) + o(sc[9]) + o(sc[7]) + o(sc[1])
                     + o(sc[2]), ids=idsc)
+                if a0["basins"] or a0["sc"][14] or any(
+                        (ft[1] == 0 and ft[2] == 0) or
+                        (ft[1] in (3, 4, 5) and ft[2] == 0) or
+                        (ft[1] == 1 and ft[3] == 0) or
+                        (ft[1] == 2 and len(ft) == 5)
+                        for ft in a0["feats"]) or any(
+                        t[1] == 0 for t in a0["traces"]):
+                    # rtdc_copy rewrites basins and leaves out empty
+                    # datasets: not part of the copy model
+                    del r["writer"]
                 if preserved and va != vb:
                     r["fails"].append(dict(
                         desc="violations differ after dclab-%s although the "
@@ -1202,7 +1212,7 @@ def evaluate(cases, scratch, procs=None):
 
 
 def run(run):
-    ncases = 1400 if run.thorough else 170
+    ncases = 1400 if run.thorough else 80
     cases = load_corpus()
     run.count("corpus", len(cases))
     k = 0
@@ -1236,7 +1246,9 @@ def feed(run, records):
             run.record_case(r["case"], True, sample=False)
             run.count("copy:%s:%s" % (r["tool"], "preserved" if r["preserved"]
                                       else "repaired-by-writer"))
-            if r["rectifies"]:
+            if "writer" not in r:
+                run.count("copy:not-modelled")
+            elif r["rectifies"]:
                 writers.append((r["case"], r["writer"]))
             else:
                 corr.append((r["case"], r["writer"]["abs"],
